@@ -105,7 +105,17 @@ def _edge_text(b, a, s):
     if src is None:
         return None
     if src[0] == "bin":
-        e = "(%s %s %s)" % (norm(b.canon(src[1]["a"], depth=KEY_DEPTH)), src[1]["bin"], norm(b.canon(src[1]["b"], depth=KEY_DEPTH)))
+        ca, cb_, op = norm(b.canon(src[1]["a"], depth=KEY_DEPTH)), norm(b.canon(src[1]["b"], depth=KEY_DEPTH)), src[1]["bin"]
+        if truth is not None and op in ("Lt", "Le", "Gt", "Ge", "Eq", "Ne"):
+            # one spelling per fact: `!(a <= b)`, `a > b` and `b < a` are the same guard
+            if not truth:
+                op = {"Lt": "Ge", "Le": "Gt", "Gt": "Le", "Ge": "Lt", "Eq": "Ne", "Ne": "Eq"}[op]
+            if op in ("Gt", "Ge"):
+                ca, cb_, op = cb_, ca, {"Gt": "Lt", "Ge": "Le"}[op]
+            if op in ("Eq", "Ne") and cb_ < ca:
+                ca, cb_ = cb_, ca
+            return "(%s %s %s)" % (ca, op, cb_)
+        e = "(%s %s %s)" % (ca, op, cb_)
     elif src[0] == "call":
         e = "%s(%s)" % (short(callee_def(src[1])) if False else (callee_def(src[1]) or "?").split("<")[0].split("::")[-1] or "call",
                         ", ".join(norm(b.canon(x, depth=KEY_DEPTH)) for x in src[1]["args"]))
